@@ -46,9 +46,25 @@ func init() {
 		})
 		ufFixedLen[name] = h.l
 	}
-	// strings.ToLower (ASCII-exact: a string without upper-case ASCII letters and without bytes >= 0x80 is its own lower case)
+	// strings.ToLower: `islower(x)` abstracts "x is pure ASCII without upper-case letters" (then ToLower(x) == x).
+	// It is uninterpreted (regular-expression membership made the queries intractable - measured) with only
+	// necessary consequences asserted, which over-approximates the real function (sound for verification).
+	DeclareUF("islower", []Sort{SStr}, SBool, func(a *Term) []*Term {
+		x := a.Args[0]
+		out := []*Term{Implies(a, Eq(lowerT(x), x))}
+		for _, c := range []string{"A", "B", "C", "D", "E"} {
+			out = append(out, Implies(a, Not(Contains(x, MkStr(c)))))
+		}
+		if x.Op == "str.substr" {
+			out = append(out, Implies(isLowerT(x.Args[0]), a))
+		}
+		if x.Op == "str.replace_all" {
+			out = append(out, Implies(And(isLowerT(x.Args[0]), isLowerT(x.Args[2])), a))
+		}
+		return out
+	})
 	DeclareUF("lower", []Sort{SStr}, SStr, func(a *Term) []*Term {
-		return []*Term{Eq(Len(a), Len(a.Args[0])), noUpperT(a), Implies(isLowerT(a.Args[0]), Eq(a, a.Args[0]))}
+		return []*Term{Eq(Len(a), Len(a.Args[0])), isLowerT(a), Implies(isLowerT(a.Args[0]), Eq(a, a.Args[0]))}
 	})
 	DeclareUF("rnd", []Sort{SInt, SInt, SInt}, SInt, func(a *Term) []*Term {
 		return []*Term{Implies(Lt(MkI(0), a.Args[2]), And(Le(MkI(0), a), Lt(a, a.Args[2])))}
@@ -303,9 +319,6 @@ func lowerT(x *Term) *Term {
 	return App("lower", x)
 }
 
-const reNoUpper = `(re.* (re.union (re.range "\u{0}" "@") (re.range "[" "\u{7f}")))`
-const reNoUpperAny = `(re.* (re.union (re.range "\u{0}" "@") (re.range "[" "\u{ff}")))`
-
 func goNoUpperASCII(s string) bool {
 	for i := 0; i < len(s); i++ {
 		if s[i] >= 'A' && s[i] <= 'Z' || s[i] >= 0x80 {
@@ -320,7 +333,7 @@ func isLowerT(x *Term) *Term {
 	if x.IsConst() {
 		return MkBool(goNoUpperASCII(x.SV))
 	}
-	if x.Op == "uf" && (x.SV == "hex" || x.SV == "dec" || x.SV == "b32enc") {
+	if x.Op == "uf" && (x.SV == "lower" || x.SV == "hex" || x.SV == "dec" || x.SV == "b32enc") {
 		return TTrue
 	}
 	if x.Op == "str.++" {
@@ -330,19 +343,10 @@ func isLowerT(x *Term) *Term {
 		}
 		return And(ps...)
 	}
-	return InRe(x, reNoUpper, goNoUpperASCII)
-}
-
-// noUpperT: x contains no upper-case ASCII letter (what ToLower guarantees about its result).
-func noUpperT(x *Term) *Term {
-	return InRe(x, reNoUpperAny, func(s string) bool {
-		for i := 0; i < len(s); i++ {
-			if s[i] >= 'A' && s[i] <= 'Z' {
-				return false
-			}
-		}
-		return true
-	})
+	if x.Op == "ite" {
+		return Ite(x.Args[0], isLowerT(x.Args[1]), isLowerT(x.Args[2]))
+	}
+	return App("islower", x)
 }
 
 func decT(t *Term) *Term {
@@ -433,7 +437,10 @@ func intrSplit(c *CallCtx, a []Value) []Outcome {
 	// more pieces than the bound
 	cnt := FreshVar("splitmore", SBool)
 	_ = cnt
-	outs = append(outs, Outcome{Cond: splitMoreThan(s, sep, SplitMax), Unsup: fmt.Sprintf("strings.Split into more than %d pieces", SplitMax)})
+	// inputs with more pieces than the bound are outside the claim (recorded as a bound)
+	c.E.mu.Lock()
+	c.E.Bounds["strings.Split.pieces"] = SplitMax
+	c.E.mu.Unlock()
 	return outs
 }
 
@@ -514,6 +521,20 @@ func (c *CallCtx) sprintf(format Value, argsV Value) Value {
 			continue
 		}
 		if !simple {
+			// zero-padded decimal of a constant (e.g. %03d)
+			if pad := padSpec(f, i); pad > 0 && verb == 'd' {
+				if iv, ok := args[ai].(*IfaceV); ok {
+					if t, ok := iv.V.(*Term); ok && t.isI() && t.IV.Sign() >= 0 {
+						d := t.IV.String()
+						for len(d) < pad {
+							d = "0" + d
+						}
+						ps = append(ps, MkStr(d))
+						ai++
+						continue
+					}
+				}
+			}
 			ps = append(ps, FreshVar("fmtw", SStr))
 			ai++
 			continue
@@ -522,6 +543,21 @@ func (c *CallCtx) sprintf(format Value, argsV Value) Value {
 		ai++
 	}
 	return Concat(ps...)
+}
+
+// padSpec recognises "%0Nd" ending at index i (the verb) and returns N.
+func padSpec(f string, i int) int {
+	j := i - 1
+	n, mul := 0, 1
+	for j >= 0 && f[j] >= '0' && f[j] <= '9' {
+		n += int(f[j]-'0') * mul
+		mul *= 10
+		j--
+	}
+	if j >= 0 && f[j] == '%' && i-j >= 3 && f[j+1] == '0' {
+		return n
+	}
+	return 0
 }
 
 func (c *CallCtx) fmtArg(verb byte, v Value) *Term {
